@@ -237,6 +237,10 @@ func cmdCheck(args []string) int {
 	rep := &Report{VC: vc, Prop: *prop, Tier: *tier, Verif: *verif, Sel: sel, Results: results, Runner: r, Start: start, LoadT: loadT, Verbose: *verbose, NoEvidence: *noEvidence || *only != ""}
 	if *only == "" {
 		rep.Extra = vc.ExtraFor(*prop, results)
+		if rep.Extra == nil {
+			rep.Extra = &ExtraChecks{ByKind: map[string]int{}}
+		}
+		vc.runModelTests(*verif, *prop, rep.Extra)
 	}
 	return rep.Finish()
 }
